@@ -250,6 +250,27 @@ def run_tree(m, nodes, raise_at, catch_at, nthreads, reps, switch):
       with lock:
         counters['probe_events'] += len(m.TL.log)
         counters['tree_runs'] += 1
+      # history: a function that has just run as a (recursively converted) callee is now converted at the user's
+      # request; inside it the status is ENABLED again, whatever was cached for it as a callee
+      if not mine and r == 0:
+        for nd in nodes:
+          if nd['kind'] == 'plain' and not nd['children'] and nd['id'] != raise_at and nd['parent'] is not None:
+            m.TL.log = []
+            try:
+              m._api.convert(recursive=True)(getattr(m, 'n%d' % nd['id']))()
+            except Exception as e:  # pylint:disable=broad-except
+              mine.append('node %d converted directly after the tree ran: %s: %s' % (nd['id'], type(e).__name__, str(e)[:100]))
+              break
+            ins = [ev for ev in m.TL.log if ev[1] == 'in']
+            with lock:
+              counters['direct_conversions_after_callee_use'] += 1
+            if not ins or ins[0][2].status.name != 'ENABLED' or ins[0][2] is base:
+              mine.append('node %d (plain) converted at the user\'s request after it had run as a callee: status inside is %s, '
+                          'expected a fresh ENABLED context' % (nd['id'], ins[0][2].status.name if ins else None))
+              break
+            if ag_ctx.control_status_ctx() is not base:
+              mine.append('after the direct conversion of node %d the context is not the thread\'s original' % nd['id'])
+              break
       if mine:
         break
     if mine:
